@@ -21,6 +21,17 @@ Conventions of the "standards-conforming terminal" (DESIGN.md §6):
 * strict tokenizer: every byte sequence outside the forms listed in DESIGN.md Appendix C appends one
   complaint `"<class> <detail>"` to `malformed` and is skipped the way xterm's parser would skip it.
 
+Interface notes: `Term.w/h/get` read the displayed grid (`Grid` = row-major `Array` with a size proof, use
+`Grid.get/set/fill/build`); `other` is the hidden screen (1049/47 swap them); `penKnown/linkKnown/cursorKnown` model
+"unknown after `corrupt`" (glyphs written with an unknown pen are garbage, cursor-relative functions with an unknown
+cursor make every cell garbage; SGR 0 / OSC 8 / CUP re-establish them); `last` remembers the cell of the glyph
+printed last (target of combining marks); `Term.finish` turns an incomplete trailing sequence into a complaint
+(`endsInGround` only reports it).  Edge cases decided the xterm way where emulators differ (tmux 3.3a differs in
+each): LF cancels a pending wrap; DECSC/DECRC save and restore the pending-wrap flag and are per screen; `?1049l`
+restores the saved cursor even when the alternate screen is not active; ICH/DCH/ED/EL with a wrap pending act on
+the last column; BS at column 0 stays; DECRST 7 cancels a pending wrap.  Stamps: every cell an operation writes,
+blanks, or moves (scroll, ICH, DCH) gets the current block id.
+
 `malformed` complaint classes (first word): `c0` `del` `c1` `utf8` `esc` `esc-cut` `charset` `csi-cut` `csi-ctl`
 `csi-byte` `csi-param` `csi-final` `sgr` `mode` `winop` `osc-cut` `osc-ctl` `osc-code` `osc-arg` `string`
 `unterminated` (only from `Term.finish`).
